@@ -201,6 +201,9 @@ func (d *Directory) handleBind(t TestingT) func(w *gldap.ResponseWriter, r *glda
 		defer func() {
 			_ = w.Write(resp)
 		}()
+		// the handler reads (and may change) state that the Set* methods write
+		d.mu.Lock()
+		defer d.mu.Unlock()
 		m, err := r.GetSimpleBindMessage()
 		if err != nil {
 			d.logger.Error("not a simple bind message", "op", op, "err", err)
@@ -224,8 +227,6 @@ func (d *Directory) handleBind(t TestingT) func(w *gldap.ResponseWriter, r *glda
 				if len(values) > 0 && string(m.Password) == values[0] {
 					resp.SetResultCode(gldap.ResultSuccess)
 					if d.controls != nil {
-						d.mu.Lock()
-						defer d.mu.Unlock()
 						resp.SetControls(d.controls...)
 					}
 					return
@@ -294,6 +295,9 @@ func (d *Directory) handleSearchGeneric(t TestingT) func(w *gldap.ResponseWriter
 				return
 			}
 		}()
+		// the handler reads (and may change) state that the Set* methods write
+		d.mu.Lock()
+		defer d.mu.Unlock()
 		m, err := r.GetSearchMessage()
 		if err != nil {
 			d.logger.Error("not a search message: %s", "op", op, "err", err)
@@ -377,8 +381,6 @@ func (d *Directory) handleSearchGeneric(t TestingT) func(w *gldap.ResponseWriter
 				}
 			}
 			if d.controls != nil {
-				d.mu.Lock()
-				defer d.mu.Unlock()
 				res.SetControls(d.controls...)
 			}
 			res.SetResultCode(gldap.ResultSuccess)
@@ -401,6 +403,9 @@ func (d *Directory) handleSearchGroups(t TestingT) func(w *gldap.ResponseWriter,
 				return
 			}
 		}()
+		// the handler reads (and may change) state that the Set* methods write
+		d.mu.Lock()
+		defer d.mu.Unlock()
 		m, err := r.GetSearchMessage()
 		if err != nil {
 			d.logger.Error("not a search message: %s", "op", op, "err", err)
@@ -440,8 +445,6 @@ func (d *Directory) handleSearchGroups(t TestingT) func(w *gldap.ResponseWriter,
 			d.logger.Debug("found entries", "op", op, "count", foundEntries)
 
 			if d.controls != nil {
-				d.mu.Lock()
-				defer d.mu.Unlock()
 				res.SetControls(d.controls...)
 			}
 			res.SetResultCode(gldap.ResultSuccess)
@@ -464,6 +467,9 @@ func (d *Directory) handleSearchUsers(t TestingT) func(w *gldap.ResponseWriter, 
 				return
 			}
 		}()
+		// the handler reads (and may change) state that the Set* methods write
+		d.mu.Lock()
+		defer d.mu.Unlock()
 		m, err := r.GetSearchMessage()
 		if err != nil {
 			d.logger.Error("not a search message: %s", "op", op, "err", err)
@@ -491,8 +497,6 @@ func (d *Directory) handleSearchUsers(t TestingT) func(w *gldap.ResponseWriter, 
 		if foundEntries > 0 {
 			d.logger.Debug("found entries", "op", op, "count", foundEntries)
 			if d.controls != nil {
-				d.mu.Lock()
-				defer d.mu.Unlock()
 				res.SetControls(d.controls...)
 				fmt.Println(d.controls)
 			}
@@ -516,6 +520,9 @@ func (d *Directory) handleModify(t TestingT) func(w *gldap.ResponseWriter, r *gl
 				return
 			}
 		}()
+		// the handler reads (and may change) state that the Set* methods write
+		d.mu.Lock()
+		defer d.mu.Unlock()
 		m, err := r.GetModifyMessage()
 		if err != nil {
 			d.logger.Error("not a modify message: %s", "op", op, "err", err)
@@ -536,8 +543,6 @@ func (d *Directory) handleModify(t TestingT) func(w *gldap.ResponseWriter, r *gl
 			res.SetDiagnosticMessage(fmt.Sprintf("more than one match: %d entries", len(entries)))
 			return
 		}
-		d.mu.Lock()
-		defer d.mu.Unlock()
 		e := entries[0]
 		if entries[0].Attributes == nil {
 			e.Attributes = []*gldap.EntryAttribute{}
@@ -598,6 +603,9 @@ func (d *Directory) handleAdd(t TestingT) func(w *gldap.ResponseWriter, r *gldap
 				return
 			}
 		}()
+		// the handler reads (and may change) state that the Set* methods write
+		d.mu.Lock()
+		defer d.mu.Unlock()
 		m, err := r.GetAddMessage()
 		if err != nil {
 			d.logger.Error("not an add message: %s", "op", op, "err", err)
@@ -615,8 +623,6 @@ func (d *Directory) handleAdd(t TestingT) func(w *gldap.ResponseWriter, r *gldap
 			attrs[a.Type] = a.Vals
 		}
 		newEntry := gldap.NewEntry(m.DN, attrs)
-		d.mu.Lock()
-		defer d.mu.Unlock()
 		d.users = append(d.users, newEntry)
 		res.SetResultCode(gldap.ResultSuccess)
 	}
@@ -637,6 +643,9 @@ func (d *Directory) handleDelete(t TestingT) func(w *gldap.ResponseWriter, r *gl
 				return
 			}
 		}()
+		// the handler reads (and may change) state that the Set* methods write
+		d.mu.Lock()
+		defer d.mu.Unlock()
 		m, err := r.GetDeleteMessage()
 		if err != nil {
 			d.logger.Error("not a delete message: %s", "op", op, "err", err)
@@ -651,8 +660,6 @@ func (d *Directory) handleDelete(t TestingT) func(w *gldap.ResponseWriter, r *gl
 				res.SetDiagnosticMessage(fmt.Sprintf("more than one match: %d entries", len(foundAt)))
 				return
 			}
-			d.mu.Lock()
-			defer d.mu.Unlock()
 			d.users = append(d.users[:foundAt[0]], d.users[foundAt[0]+1:]...)
 			res.SetResultCode(gldap.ResultSuccess)
 			return
@@ -664,8 +671,6 @@ func (d *Directory) handleDelete(t TestingT) func(w *gldap.ResponseWriter, r *gl
 				res.SetDiagnosticMessage(fmt.Sprintf("more than one match: %d entries", len(foundAt)))
 				return
 			}
-			d.mu.Lock()
-			defer d.mu.Unlock()
 			d.groups = append(d.groups[:foundAt[0]], d.groups[foundAt[0]+1:]...)
 			res.SetResultCode(gldap.ResultSuccess)
 			return
@@ -838,6 +843,8 @@ func (d *Directory) ClientKey() string {
 
 // Controls returns all the current bind controls for the Directory
 func (d *Directory) Controls() []gldap.Control {
+	d.mu.Lock()
+	defer d.mu.Unlock()
 	return d.controls
 }
 
@@ -853,6 +860,8 @@ func (d *Directory) SetControls(controls ...gldap.Control) {
 
 // Users returns all the current user entries in the Directory
 func (d *Directory) Users() []*gldap.Entry {
+	d.mu.Lock()
+	defer d.mu.Unlock()
 	return d.users
 }
 
@@ -868,6 +877,8 @@ func (d *Directory) SetUsers(users ...*gldap.Entry) {
 
 // Groups returns all the current group entries in the Directory
 func (d *Directory) Groups() []*gldap.Entry {
+	d.mu.Lock()
+	defer d.mu.Unlock()
 	return d.groups
 }
 
@@ -893,11 +904,15 @@ func (d *Directory) SetTokenGroups(tokenGroups map[string][]*gldap.Entry) {
 
 // TokenGroups will return the tokenGroup entries
 func (d *Directory) TokenGroups() map[string][]*gldap.Entry {
+	d.mu.Lock()
+	defer d.mu.Unlock()
 	return d.tokenGroups
 }
 
 // AllowAnonymousBind returns the allow anon bind setting
 func (d *Directory) AllowAnonymousBind() bool {
+	d.mu.Lock()
+	defer d.mu.Unlock()
 	return d.allowAnonymousBind
 }
 
